@@ -4,7 +4,7 @@ import os
 import types
 
 from .. import common
-from ..common import ctext, clist
+from ..common import ctext, clist, copt, cnat
 from .. import expect_hist as H
 
 FINISH = dict(level='proof', rule='event tables (list or dict; regex patterns built around substrings of the stream, EOF/TIMEOUT as event keys; responses string / function / method '
@@ -89,8 +89,10 @@ def run_real(pexpect, case):
     out = None
     try:
         try:
-            res = runmod.run('cmd', timeout=30, events=ev_arg, withexitstatus=case['withexit'],
-                             **({'encoding': 'latin-1'} if case['unicode'] else {}))
+            kw = {'encoding': 'latin-1'} if case['unicode'] else {}
+            if case.get('window') is not None:
+                kw['searchwindowsize'] = case['window']          # handed on to the spawn object
+            res = runmod.run('cmd', timeout=30, events=ev_arg, withexitstatus=case['withexit'], **kw)
             if case['withexit']:
                 out, status = res
                 box['status'] = status
@@ -133,16 +135,20 @@ def gen_case(rng):
         out += ['X']
     events = []
     keys = set()
-    for _ in range(rng.choice([0, 1, 1, 2, 2, 3])):
+    as_dict = rng.random() < 0.3
+    allow_dup = not as_dict          # a list may name the same pattern twice: the first entry answers
+    for _ in range(rng.choice([0, 1, 1, 2, 2, 3, 4])):
         x = rng.random()
-        if x < 0.15:
+        if allow_dup and events and rng.random() < 0.25:
+            pat = rng.choice(events)[0]
+        elif x < 0.15:
             pat = 'EOF'
         elif x < 0.35:
             pat = 'TIMEOUT'
         else:
             pat = ('r', H.gen_rx(rng, stream, alpha))
         key = pat if isinstance(pat, str) else H.rx_src(pat[1], None)
-        if key in keys:
+        if key in keys and not allow_dup:
             continue
         keys.add(key)
         y = rng.random()
@@ -157,7 +163,8 @@ def gen_case(rng):
             resp = ('bad',)
         events.append((pat, resp))
     # a regex that can match the empty string together with a non-stopping response loops forever: exclude
-    return {'unicode': uni, 'script': out, 'events': events, 'as_dict': rng.random() < 0.3, 'withexit': rng.random() < 0.3}
+    return {'unicode': uni, 'script': out, 'events': events, 'as_dict': as_dict, 'withexit': rng.random() < 0.3,
+            'window': rng.choice([None, None, None, 1, 2, 3, 6])}
 
 
 def loops_forever(case):
@@ -205,7 +212,7 @@ def coq_case(case):
             r = 'RBad'
         evs.append('(%s, %s)' % (p, r))
     tr = [{'T': 'Timeout', 'E': 'Eof', 'X': 'Err'}.get(e) if e in ('T', 'E', 'X') else '(Data %s)' % ctext(e) for e in case['script']]
-    return '(%s, %s)' % (clist(evs), clist(tr))
+    return '(%s, %s, %s)' % (copt(case.get('window'), cnat), clist(evs), clist(tr))
 
 
 def run(ctx):
@@ -246,7 +253,7 @@ def run(ctx):
                 bad = 'run() returned %r but the child wrote %r (still pending: %r)' % (out, consumed, pending)
             if case['withexit'] and (box.get('status') != 7 or not box.get('closed')):
                 bad = 'withexitstatus: returned status %r, child closed=%r' % (box.get('status'), box.get('closed'))
-        if not bad and kind == 'ret':
+        if not bad and kind == 'ret' and case.get('window') is None:      # (a search window may legitimately hide an occurrence)
             lits = [(p, r) for p, r in case['events'] if isinstance(p, tuple) and r[0] == 'send' and _is_literal(p[1])]
             others = [p for p, r in case['events'] if isinstance(p, tuple)]
             senders = [1 for p, r in case['events'] if r[0] == 'send' or (r[0] == 'cb' and r[1][0] == 'str')]
@@ -275,7 +282,7 @@ def run(ctx):
             cases.append((coq_case(case), [out, [s for s in sent], child._before.getvalue(), len(child.script), stop], case))
     ctx.oracle_stats.update({'runs': n, 'stop_kinds': kinds})
     if os.path.exists(os.path.join(common.COQ, 'Run/Run.vo')):
-        ctx.run_cases('run-loop', ['Base.Rx', 'Expect.Model', 'Run.Model', 'Run.Run'], 'run_case', 'list (entry rx * resp) * list ev', cases, shard=300)
+        ctx.run_cases('run-loop', ['Base.Rx', 'Expect.Model', 'Run.Model', 'Run.Run'], 'run_case', 'option nat * list (entry rx * resp) * list ev', cases, shard=300)
     else:
         ctx.corr_broken.append(('run-loop', {'error': 'model did not build'}))
 
